@@ -23,8 +23,16 @@ def bits(s):
     return n
 
 
-def enc_table(t):
-    return [[e.key & 0xffff, e.key >> 16, e.mask & 0xffff, e.mask >> 16, bits(e.route), bits(e.sources)] for e in t]
+def enc_table(t, fx=None):
+    """entries as <<keylo, keyhi, masklo, maskhi, route, srcs>>; with a layout `fx` whose active bits are not the low
+    ones, key and mask first go through fx.low (a fixed permutation of the 32 bit positions that brings the active
+    bits to positions 0..w-1: a bijection on keys, so first-match semantics are untouched)"""
+    lo = fx.low if fx is not None and fx.scattered else (lambda v: v)
+    out = []
+    for e in t:
+        k, m = lo(e.key), lo(e.mask)
+        out.append([k & 0xffff, k >> 16, m & 0xffff, m >> 16, bits(e.route), bits(e.sources)])
+    return out
 
 
 def tern_to_km(s):
@@ -58,22 +66,106 @@ class Fix(object):
     def shared(cls, rng, w, period=60):
         f, n = cls._shared.get(w, (None, 0))
         if f is None or n >= period:
-            f, n = cls(rng, w), 0
+            f, n = cls(rng, w, scatter=0.45), 0
         cls._shared[w] = (f, n + 1)
         return f
 
-    def __init__(self, rng, w):
+    def __init__(self, rng, w, scatter=0.0):
         hi_mask = rng.getrandbits(32 - w) if rng.random() < 0.7 else (1 << (32 - w)) - 1
         hi_key = rng.getrandbits(32 - w) & hi_mask
-        self.k, self.m = hi_key << w, hi_mask << w
+        # where the w active bits live among the 32: the low end (as every table had them at first), the top end
+        # (bit 31 included), or anywhere
+        self.w = w
+        c = rng.random()
+        if c >= scatter:
+            self.pos = list(range(w))
+        elif c < scatter / 3:
+            self.pos = list(range(32 - w, 32))
+        else:
+            self.pos = sorted(rng.sample(range(32), w))
+        self.scattered = self.pos != list(range(w))
+        self.rest = [b for b in range(32) if b not in self.pos]
+        self._low = {}
+        self.k = self._spread(hi_key, self.rest)
+        self.m = self._spread(hi_mask, self.rest)
+
+    @staticmethod
+    def _spread(v, positions):
+        return sum(((v >> j) & 1) << b for j, b in enumerate(positions))
+
+    def up(self, v):
+        """a value over the w active bits -> the same bits at their real positions"""
+        return self._spread(v, self.pos) if self.scattered else v
+
+    def low(self, v):
+        """a 32-bit word -> the word with the active bits at 0..w-1 and the others, in order, above them"""
+        r = self._low.get(v)
+        if r is None:
+            r = sum(((v >> b) & 1) << j for j, b in enumerate(self.pos + self.rest))
+            self._low[v] = r
+        return r
 
     def entry(self, km, route, sources):
-        return RTE(set(route), km[0] | self.k, km[1] | self.m, set(sources))
+        return RTE(set(route), self.up(km[0]) | self.k, self.up(km[1]) | self.m, set(sources))
 
 
-def random_table(rng, w, n, ordered_overlapping):
+LINKS = [Routes(i) for i in range(6)]
+
+
+def wide_route(rng):
+    """any set of routes: one link (any of the six), one core, several links and cores, or none (packets dropped)"""
+    c = rng.random()
+    if c < 0.5:
+        return {rng.choice(LINKS)}
+    if c < 0.58:
+        return set()
+    if c < 0.75:
+        return {Routes.core(rng.randint(0, 17))}
+    return set(rng.sample(list(Routes), rng.randint(2, 6)))
+
+
+def wide_sources(rng, route):
+    """any set of source directions; the link opposite a single-link route (a default-routable entry) is favoured"""
+    if len(route) == 1 and rng.random() < 0.4:
+        r = next(iter(route))
+        if r.is_link:
+            return {Routes((int(r) + 3) % 6)}
+    c = rng.random()
+    if c < 0.45:
+        return {rng.choice(LINKS)}
+    if c < 0.65:
+        return {None}
+    if c < 0.85:
+        return set(rng.sample(LINKS, rng.randint(2, 3)))
+    return {None, rng.choice(LINKS)}
+
+
+def dress(rng, kms, fx):
+    """routes and sources for a list of key/masks: the narrow palette (few routes, so that merges abound) or, for
+    one table in three, any routes and sources at all"""
+    nroutes = rng.choice((1, 2, 2, 3, 4))
+    if rng.random() < 0.35:
+        palette = [wide_route(rng) for _ in range(nroutes)]
+        table = []
+        for km in kms:
+            route = rng.choice(palette)
+            table.append(fx.entry(km, route, wide_sources(rng, route)))
+        return table
+    table = []
+    for km in kms:
+        route = rng.choice(ROUTE_SETS[:nroutes])
+        src = rng.choice(SOURCE_SETS)
+        table.append(fx.entry(km, route, src))
+    return table
+
+
+def random_table(rng, w, n, ordered_overlapping, fx=None):
+    """-> (table, layout).  Orthogonal key/masks in any order, or overlapping ones in increasing order of generality;
+    one overlapping table in four may list the same key/mask more than once (the later copies are dead entries
+    under first-match semantics - still a table in generality order)"""
     kms = []
     tries = 0
+    dup = 0.5 if ordered_overlapping and rng.random() < 0.25 else 0.0
     while len(kms) < n and tries < 50 * n + 50:
         tries += 1
         s = "".join(rng.choice("01X" if rng.random() < 0.5 else "01") for _ in range(w))
@@ -81,20 +173,37 @@ def random_table(rng, w, n, ordered_overlapping):
         if ordered_overlapping:
             if km not in kms:
                 kms.append(km)
+                if dup and rng.random() < 0.15:
+                    kms.append(km)
+            elif dup and rng.random() < dup:
+                kms.append(km)
         elif all(not km_intersect(km, o) for o in kms):
             kms.append(km)
     if ordered_overlapping:
         kms.sort(key=lambda km: generality(km, w))      # stable: increasing generality
     else:
         rng.shuffle(kms)
+    if fx is None:
+        fx = Fix.shared(rng, w)
+    return dress(rng, kms, fx), fx
+
+
+def uniform_mask_table(rng, w, n):
+    """-> (table, layout, orthogonal).  Every entry has the same mask (the usual table of exact-match keys, or of
+    keys with the same don't-care bits): distinct keys are orthogonal in any order; with a key listed twice the
+    table overlaps, and any order is an order of increasing generality."""
+    mask = (1 << w) - 1
+    if rng.random() < 0.5:
+        mask &= rng.getrandbits(w) | (1 << rng.randrange(w))
+    keys = sorted({rng.getrandbits(w) & mask for _ in range(n)})
+    rng.shuffle(keys)
+    orthogonal = True
+    if rng.random() < 0.5 and keys:
+        for _ in range(rng.randint(1, 2)):
+            keys.insert(rng.randrange(len(keys) + 1), rng.choice(keys))
+        orthogonal = False
     fx = Fix.shared(rng, w)
-    nroutes = rng.choice((1, 2, 2, 3, 4))
-    table = []
-    for km in kms:
-        route = rng.choice(ROUTE_SETS[:nroutes])
-        src = rng.choice(SOURCE_SETS)
-        table.append(fx.entry(km, route, src))
-    return table
+    return dress(rng, [(k, mask) for k in keys], fx), fx, orthogonal
 
 
 def many_chips(table, target, rng):
@@ -116,14 +225,24 @@ def many_chips(table, target, rng):
     return minimise_tables(tables, targets).get((1, 2), [])
 
 
-def run_methods(table, w, rng, chk, stepped=True, any_order=False):
+def run_methods(table, w, rng, chk, stepped=True, any_order=False, fx=None, configs=False, orthogonal=False):
     """all minimisers x targets on one table -> one trace"""
     n = len(table)
     evs = []
+    orig = enc_table(table, fx)          # what the caller gave, recorded before rig sees it
     methods = [("rdr", remove_default_routes.minimise)]
     if not any_order:
         methods += [("oc", oc_mod.minimise), ("mt", minimise_table),
                     ("mts", lambda t, tl: many_chips(t, tl, rng))]
+    if configs and not any_order:
+        # the same public calls in their other documented configurations: ordered covering proper (no default-route
+        # pass, raising), the method chain with the caller's own list of methods
+        methods += [("occ", lambda t, tl: oc_mod.ordered_covering(t, tl)[0]),
+                    ("mt-oc", lambda t, tl: minimise_table(t, tl, methods=(oc_mod.minimise,))),
+                    ("mt-rev", lambda t, tl: minimise_table(t, tl, [oc_mod.minimise, remove_default_routes.minimise]))]
+    if configs and orthogonal:
+        # documented for tables without aliased entries
+        methods += [("rdr-na", lambda t, tl: remove_default_routes.minimise(t, tl, check_for_aliases=False))]
     if w <= 4 or not chk.quick:
         targets = [None, 0, n // 2, n, n + 2] + ([rng.randint(0, n + 1)] if n > 2 else [])
     else:       # quick tier, wide tables: three targets (the all-keys quantifier dominates the cost)
@@ -135,12 +254,16 @@ def run_methods(table, w, rng, chk, stepped=True, any_order=False):
         except Exception:
             reached[name] = -1
     if "mt" in reached:
-        reached["mt"] = reached["mts"] = min(n, reached["rdr"], reached["oc"]) if min(reached["rdr"], reached["oc"]) >= 0 else -1
+        both = min(n, reached["rdr"], reached["oc"]) if min(reached["rdr"], reached["oc"]) >= 0 else -1
+        reached["mt"] = reached["mts"] = both
+        if "mt-rev" in reached:
+            reached["mt-rev"] = both
+            reached["mt-oc"] = min(n, reached["oc"]) if reached["oc"] >= 0 else -1
     for name, f in methods:
-        for tgt in targets:
+        for tgt in (targets if len(name) <= 3 else targets[:1] + [rng.choice(targets[1:])]):
             try:
                 new = f(list(table), tgt)
-                evs.append(["min", name, [] if tgt is None else [tgt], "ok", enc_table(new), 0, 0])
+                evs.append(["min", name, [] if tgt is None else [tgt], "ok", enc_table(new, fx), 0, 0])
             except MinimisationFailedError as ex:
                 evs.append(["min", name, [] if tgt is None else [tgt], "fail", [],
                             -1 if ex.final_length is None else int(ex.final_length), reached[name]])
@@ -157,10 +280,10 @@ def run_methods(table, w, rng, chk, stepped=True, any_order=False):
                 break
             if len(nxt) >= len(cur):
                 break
-            evs.append(["step", enc_table(nxt)])
+            evs.append(["step", enc_table(nxt, fx)])
             cur = nxt
             chk.count("ordered-covering merges single-stepped")
-    return dict(w=w, orig=enc_table(table), ev=evs)
+    return dict(w=w, orig=orig, ev=evs)
 
 
 def small_tables(chk, rng):
@@ -173,7 +296,7 @@ def small_tables(chk, rng):
     out = []
     # all tables of 1 and 2 entries
     for n in (1, 2):
-        for combo in itertools.permutations(kms, n):
+        for combo in itertools.chain(itertools.permutations(kms, n), [(km, km) for km in kms] if n == 2 else []):
             orth = all(not km_intersect(a, b) for a, b in itertools.combinations(combo, 2))
             ordered = all(generality(combo[i], w) <= generality(combo[i + 1], w) for i in range(n - 1))
             if not (orth or ordered):
@@ -185,21 +308,20 @@ def small_tables(chk, rng):
             for rs, ss in rsss:
                 out.append([fx.entry(combo[i], routes[rs[i]], srcs[ss[i]]) for i in range(n)])
     chk.extra["small_tables_complete_upto"] = (
-        "all orthogonal (any order) and generality-ordered key/mask sequences of <= 2 entries over 3 key bits; "
+        "all orthogonal (any order) and generality-ordered key/mask sequences of <= 2 entries over 3 key bits "
+        "(the same key/mask twice included); "
         + ("3 sampled" if chk.quick else "all 36") + " route/source combinations each")
     # 3- and 4-entry tables: sampled
     want = chk.pick(800, 40000)
     while want > 0:
         n = rng.choice((3, 3, 4))
-        combo = [rng.choice(kms) for _ in range(n)]
-        if len(set(combo)) < n:
-            continue
+        combo = [rng.choice(kms) for _ in range(n)]         # a key/mask may come up twice: an overlapping table
         orth = all(not km_intersect(a, b) for a, b in itertools.combinations(combo, 2))
         if not orth:
             combo.sort(key=lambda km: generality(km, w))
         out.append([fx.entry(km, rng.choice(routes), rng.choice(srcs)) for km in combo])
         want -= 1
-    return w, out
+    return w, out, fx
 
 
 def run(chk):
@@ -211,16 +333,19 @@ def run(chk):
     traces = []
     # the empty table, every method and target
     traces.append(run_methods([], 3, rng, chk))
-    w, tabs = small_tables(chk, rng)
+    w, tabs, fx = small_tables(chk, rng)
     for t in tabs:
-        traces.append(run_methods(t, w, rng, chk, stepped=len(t) > 2))
+        traces.append(run_methods(t, w, rng, chk, stepped=len(t) > 2, fx=fx))
         chk._nontrivial.add(str(traces[-1]["orig"]))
     # random larger tables
     for i in range(chk.pick(240, 20000)):
         w = rng.choice((4, 4, 5, 5, 6, 6, 7, 8) if not chk.quick else (4, 4, 5, 5, 5, 6, 6)) if rng.random() < (0.99 if chk.quick else 0.97) else rng.choice((8, 9, 10))
         n = rng.randint(2, min(40, 2 ** w))
-        t = random_table(rng, w, n, ordered_overlapping=rng.random() < 0.5)
-        traces.append(run_methods(t, w, rng, chk))
+        overlapping = rng.random() < 0.5
+        t, fx = random_table(rng, w, n, ordered_overlapping=overlapping)
+        traces.append(run_methods(t, w, rng, chk, fx=fx, configs=rng.random() < 0.25, orthogonal=not overlapping))
+        if fx.scattered:
+            chk.count("tables whose active key bits are not the low ones")
         if len({e.route for e in t}) < len(t):
             chk._nontrivial.add(str(traces[-1]["orig"]))
         # history: a follow-up table in the same process whose genuine entries carry the key/masks the
@@ -231,36 +356,51 @@ def run(chk):
             except Exception:
                 prev = []
             t2 = [RTE(rng.choice(ROUTE_SETS[:3]), e.key, e.mask, rng.choice(SOURCE_SETS)) for e in prev]
-            extra = random_table(rng, w, rng.randint(1, 4), ordered_overlapping=True)
-            fixk, fixm = (t[0].key >> w) << w, (t[0].mask >> w) << w
+            extra, _ = random_table(rng, w, rng.randint(1, 4), ordered_overlapping=True, fx=fx)
             have = {(e.key, e.mask) for e in t2}
             for e in extra:
-                km = ((e.key & ((1 << w) - 1)) | fixk, (e.mask & ((1 << w) - 1)) | fixm)
-                if km not in have:
-                    have.add(km)
-                    t2.append(RTE(e.route, km[0], km[1], e.sources))
-            t2.sort(key=lambda e: w - bin(e.mask & ((1 << w) - 1)).count("1"))
+                if (e.key, e.mask) not in have:
+                    have.add((e.key, e.mask))
+                    t2.append(e)
+            t2.sort(key=lambda e: bin(e.mask).count("1"), reverse=True)      # stable: increasing generality
             if len(t2) > 1:
-                traces.append(run_methods(t2, w, rng, chk, stepped=False))
+                traces.append(run_methods(t2, w, rng, chk, stepped=False, fx=fx))
                 chk.count("follow-up tables built from earlier merge products")
+    # tables whose entries all have one mask (exact-match keys, or the same don't-care bits everywhere), some with a
+    # key listed twice: the case default-route removal treats specially
+    for i in range(chk.pick(60, 3000)):
+        w = rng.choice((3, 4, 4, 5))
+        t, fx, orth = uniform_mask_table(rng, w, rng.randint(2, min(12, 2 ** w)))
+        traces.append(run_methods(t, w, rng, chk, stepped=False, fx=fx, configs=rng.random() < 0.5, orthogonal=orth))
+        chk.count("one-mask tables" + ("" if orth else " with a key listed twice"))
+    # every (source link, route link) pair - the six straight-through ones and the thirty turns - as the first entry
+    # of a small orthogonal table next to an entry that routes to a core (all 18 cores come up) from one link
+    fx = Fix(rng, 3, scatter=0.5)
+    for i, (src, dst) in enumerate(itertools.product(LINKS, LINKS)):
+        keys = rng.sample(range(8), 3)
+        t = [fx.entry((keys[0], 7), {dst}, {src}),
+             fx.entry((keys[1], 7), {Routes.core(i % 18)}, {LINKS[(i // 18 + i) % 6]}),
+             fx.entry((keys[2], 7), {dst}, {src, rng.choice(LINKS + [None])})]
+        traces.append(run_methods(t, 3, rng, chk, stepped=False, fx=fx, orthogonal=True, configs=i % 6 == 0))
+        chk.count("source-link x route-link pair tables")
     # default-route removal alone: any ordered table at all (arbitrary order, overlapping)
     for i in range(chk.pick(300, 6000)):
         w = rng.choice((3, 4, 5, 6))
-        t = random_table(rng, w, rng.randint(1, 12), ordered_overlapping=True)
+        t, fx = random_table(rng, w, rng.randint(1, 12), ordered_overlapping=True)
         rng.shuffle(t)
-        traces.append(run_methods(t, w, rng, chk, any_order=True))
+        traces.append(run_methods(t, w, rng, chk, any_order=True, fx=fx))
     # ---- beyond C04: rig's own table utilities (expand_entries, table_is_subset_of), same first-match semantics
     import warnings
     from rig.routing_table import expand_entries, table_is_subset_of
     extras = []
     for i in range(chk.pick(300, 5000)):
         w = rng.choice((3, 4, 5, 6))
-        t = random_table(rng, w, rng.randint(1, 10), ordered_overlapping=rng.random() < 0.5)
+        t, fx = random_table(rng, w, rng.randint(1, 10), ordered_overlapping=rng.random() < 0.5)
         evs = []
         with warnings.catch_warnings():
             warnings.simplefilter("ignore")
             try:
-                evs.append(["expand", enc_table(list(expand_entries(t)))])
+                evs.append(["expand", enc_table(list(expand_entries(t)), fx)])
             except Exception as ex:
                 evs.append(["min", "expand_entries", [], type(ex).__name__, [], 0, 0])
             others = [list(t)]
@@ -276,18 +416,22 @@ def run(chk):
                 others.append(t[:k] + t[k + 1:])
             for o in others:
                 try:
-                    evs.append(["subset", enc_table(o), 1 if table_is_subset_of(t, o) else 0])
+                    evs.append(["subset", enc_table(o, fx), 1 if table_is_subset_of(t, o) else 0])
                 except Exception as ex:
                     evs.append(["min", "table_is_subset_of", [], type(ex).__name__, [], 0, 0])
-        extras.append(dict(w=w, orig=enc_table(t), ev=evs))
+        extras.append(dict(w=w, orig=enc_table(t, fx), ev=evs))
     chk.validate_beyond("RoutingTableTrace", "RoutingTableTrace.cfg", extras,
                         "expand_entries / table_is_subset_of against first-match semantics", batch=3000)
 
     chk.rule = ("the empty table; all tables of <= 2 entries and sampled 3-4 entry tables over 3 key bits (orthogonal in "
                 "any order, or overlapping in generality order), random tables over 4..10 active bits with up to 40 "
-                "entries and random fixed high bits; each through remove_default_routes, ordered_covering, "
+                "entries and random fixed bits elsewhere (active bits at the low end, the top end or scattered over "
+                "the 32; narrow or arbitrary route/source palettes; overlapping tables may repeat a key/mask), "
+                "one-mask tables with and without a repeated key, all 36 source-link x route-link pairs; each through remove_default_routes, ordered_covering, "
                 "minimise_table, minimise_tables with targets None/0/n//2/n/n+2/random, plus ordered covering "
-                "single-stepped merge by merge; arbitrary-order overlapping tables through remove_default_routes "
+                "single-stepped merge by merge; for a quarter also ordered_covering() itself (raising), "
+                "minimise_table with the caller's own methods and remove_default_routes(check_for_aliases=False) on "
+                "orthogonal tables; arbitrary-order overlapping tables through remove_default_routes "
                 "only. evaluations = minimiser calls; non-trivial = table with two entries of equal route (a merge "
                 "candidate) or any small table; distinct = distinct original table")
     chk.exhaustive = False
